@@ -25,7 +25,11 @@
    - Roto script (E2eModel.e_step, extracted): `F s` as first op = the start-up
      configuration names script s; `W s [1]` = the operator edits the script
      (0: takes roto_script out; 1..8: rib-in-pre rejects prefix 10.<s>.0.0/16;
-     9: a script without rib-in-pre); `Y y` = [units.rib2] absent / a rib / a
+     9: a script without rib-in-pre; 10+r / 20+r: bmp-in rejects the messages
+     of the peers of AS 65002 / 65003, bgp-in the UPDATEs of the speaker of AS
+     65101 / 65100, rib-in-pre as variant r - E2eIngress.v: the ingress unit
+     holds the filters of the script named by the load that STARTED it, a
+     rejected message is not delivered: no operation of the model); `Y y` = [units.rib2] absent / a rib / a
      unit of another type; both take effect with the next H / L. `P af p` = the
      query asked of rib2 (`p:-` when no rib answers there). In a case with such
      ops every `q:` / `p:` token comes from E2eModel: a RIB unit filters with
@@ -71,6 +75,7 @@ open Conv
 open BmpModel
 open PipeModel
 open E2eModel
+open E2eIngress
 
 let n = n_of_int
 
@@ -79,6 +84,7 @@ type item =
   | Pass                    (* one pipe op, one token; q: tokens are kept *)
   | Query of string list    (* Q af p *)
   | Query2 of string list   (* P af p: the same asked of rib2 *)
+  | Rejected of int         (* a BMP message that the bmp-in filter of its unit rejects: never delivered to the state machine *)
   | Msg of int * string list (* a BMP message of router k: as Pass (prints -), and the unit counters see it *)
   | Script of int           (* W s [1] *)
   | Unit2 of int            (* Y y *)
@@ -108,7 +114,15 @@ let starts p s = String.length s >= String.length p && String.sub s 0 (String.le
 
 (* the scripts harness/src/engines/e2e.rs writes *)
 let script_of (s : int) : script =
-  if s = 0 then SNone else if s = 9 then SNoRibFilter else SRejectPfx (Eng_pipe.pid 0 s)
+  if s = 0 then SNone
+  else if s >= 10 then (let r = s mod 10 in if r = 0 || r = 9 then SNoRibFilter else SRejectPfx (Eng_pipe.pid 0 r))
+  else if s = 9 then SNoRibFilter else SRejectPfx (Eng_pipe.pid 0 s)
+(* ... their bmp-in / bgp-in slots (E2eIngress.ifilters): variants 10..19 / 20..29 *)
+let ifilters_of (s : int) : ifilters =
+  match s / 10 with
+  | 1 -> { if_bmp = Some (n 65002); if_bgp = Some (n 65101) }
+  | 2 -> { if_bmp = Some (n 65003); if_bgp = Some (n 65100) }
+  | _ -> { if_bmp = None; if_bgp = None }
 
 (* the BMP ops as operations of the pipeline model (as eng_pipe reads them) *)
 let wop_of toks : wop =
@@ -209,7 +223,12 @@ let run_case (line : string) : string =
           else Skip
       | "M" -> push self; Metrics (i 1)
       | "Q" -> push self; Query toks
-      | "I" | "T" | "S" | "U" | "D" | "R" | "E" | "B" -> push self; Msg (i 1, toks)
+      | "I" | "T" | "S" | "U" | "D" | "R" | "E" | "B" ->
+          (* without a bmp-in unit that a reload starts, the unit holds the start-up script's filter throughout
+             (E2eIngress.ingress_units_keep_startup_filter); a rejected message is not part of the pipeline's history
+             (E2eIngress.filtered_run_is_run_of_survivors) *)
+          if not ingress && bmp_in_rejects (ifilters_of startup) (wop_of toks) then Rejected (i 1)
+          else (push self; Msg (i 1, toks))
       | "BO" -> BOpenI (min 4 (i 1))
       | "BA" -> BUpdI toks
       | "BZ" -> BCloseI (min 4 (i 1))
@@ -240,6 +259,8 @@ let run_case (line : string) : string =
   (* the pipeline with its script and RIB units (E2eModel), stepped along in a case that uses them *)
   let ist = ref (i_init (script_of startup) (n startup_vribs)) in
   let est = ref (if ingress then !ist.is_e else e_init_v (script_of startup) (n startup_vribs)) in
+  (* what the ingress units hold of the scripts (E2eIngress.ing; g_step / j_step are followed op by op below) *)
+  let ig = ref (ing_init (ifilters_of startup)) in
   let hist1 : RibModel.update list ref = ref [] and hist2 : RibModel.update list ref = ref [] in
   (* the update a world operation makes the ingress unit send, as each RIB unit takes it (for the classification) *)
   let record (wo : wop) =
@@ -392,8 +413,15 @@ let run_case (line : string) : string =
       | Listed u ->
           let t = (match i_listed !ist (n u) with Some c -> Printf.sprintf "r:%d" (int_of_n c) | None -> "r:-") in
           emit t t "."
-      | Script s -> estep (EScript (script_of s)); emit "-" "-" "."
+      | Script s -> estep (EScript (script_of s)); ig := ing_edit !ig (ifilters_of s); emit "-" "-" "."
       | Unit2 y -> estep (EUnit (n y)); emit "-" "-" "."
+      | Rejected k ->
+          (* counted as received under the router id the session has (message_received comes before the filter), nothing else *)
+          (match Stdlib.List.assoc_opt k !conn with Some (cur, _) -> set k (cur, Some cur) | None -> ());
+          emit "-" "-" "."
+      | Msg (k, toks) when ingress && bmp_in_rejects (j_filter !ig (n k)) (wop_of toks) ->
+          (match Stdlib.List.assoc_opt k !conn with Some (cur, _) -> set k (cur, Some cur) | None -> ());
+          emit "-" "-" "."
       | Msg (k, toks) ->
           let a_ing = if ingress_or_dup then outcome_tok (wop_of toks) else "-" in
           estep (EW (wop_of toks));
@@ -428,6 +456,7 @@ let run_case (line : string) : string =
           let keys st = Stdlib.List.sort compare (Stdlib.List.map int_of_n (b_live st)) in
           let before = keys !ba in
           (if bgp then Stdlib.List.iter (fun k -> record (WBgpClose (n k))) (Stdlib.List.map int_of_n (b_ended !ba.bs_file !ba.bs_sess)));
+          ig := ing_reload (ingress && i_starts !ist (IE EReload) = Some true) !ig;
           estep EReload;
           bgp_ended := Stdlib.List.filter (fun k -> not (Stdlib.List.mem k (keys !ba))) before;
           (* the connections of a unit that was terminated are gone *)
@@ -465,9 +494,12 @@ let run_case (line : string) : string =
           let k = min 4 (int_of_string (Stdlib.List.nth toks 1)) in
           let a = int_of_string (Stdlib.List.nth toks 2) in
           let u = URoutes (n 0, Eng_pipe.plist 0 (Stdlib.List.nth toks 3), n a, n 0, Eng_pipe.plist 0 (Stdlib.List.nth toks 4)) in
-          if b_sess_of !ba (n k) <> None then record (WBgpUpdate (n k, Some u));
-          bstep_both (BUpd (n k, u)) (BUpd (n k, u));
-          emit "-" "-" "."
+          (* E2eIngress.g_step: an UPDATE that the unit's bgp-in filter rejects is no operation *)
+          if bgp_in_rejects (fst !ig.ig_bgp) (n k) then emit "-" "-" "." else begin
+            if b_sess_of !ba (n k) <> None then record (WBgpUpdate (n k, Some u));
+            bstep_both (BUpd (n k, u)) (BUpd (n k, u));
+            emit "-" "-" "."
+          end
       | BCloseI k ->
           if b_sess_of !ba (n k) <> None then record (WBgpClose (n k));
           bstep_both (BClose (n k)) (BClose (n k));
